@@ -264,7 +264,7 @@ def _py_files():
 class _Sites(ast.NodeVisitor):
     def __init__(self, rel):
         self.rel = rel; self.stack = []
-        self.callCommand = []; self.gate = []; self.proxy = []; self.getMethod = []; self.defmut = []
+        self.callCommand = []; self.gate = []; self.proxy = []; self.getMethod = []; self.defmut = []; self.nocap = []
     def visit_FunctionDef(self, n):
         self.stack.append(n.name); self.generic_visit(n); self.stack.pop()
     visit_AsyncFunctionDef = visit_FunctionDef
@@ -289,6 +289,15 @@ class _Sites(ast.NodeVisitor):
                 self.defmut.append('%s:%s' % (self.where(), f.attr))
             elif f.attr in ('setValue', 'set') and ast.unparse(f.value) == 'conf.supybot.capabilities':
                 self.defmut.append('%s:%s' % (self.where(), f.attr))
+            elif f.attr == 'errorNoCapability':
+                mode = 'default'
+                for kw in n.keywords:
+                    if kw.arg == 'Raise':
+                        mode = 'True' if (isinstance(kw.value, ast.Constant) and kw.value.value is True) else \
+                               ('False' if (isinstance(kw.value, ast.Constant) and kw.value.value is False) else 'dynamic')
+                    elif kw.arg is None:
+                        mode = 'dynamic'
+                self.nocap.append((self.where(), mode))
             elif f.attr == 'Proxy':
                 self.proxy.append((self.where(), ast.unparse(n.args[1]) if len(n.args) > 1 else '?', len(n.args)))
         elif isinstance(f, ast.Name) and f.id == 'NestedCommandsIrcProxy':
@@ -336,7 +345,28 @@ def _gate_shape():
     facts.append(('cc-default', 'default &= ircdb.channels.getChannel(channel).defaultAllow' in gs
                   and 'default = conf.supybot.capabilities.default()' in gs))
     facts.append(('cc-return', 'return not (default or any(lambda x: ircdb.checkCapability(msg.prefix, x), checkAtEnd))' in gs))
+    facts.append(('cc-uses-msg-channel', 'if msg.channel:\n            channel = msg.channel' in gs and 'msg.args' not in gs))
     facts.append(('cc-plugin-lower', 'plugin = cb.name().lower()' in gs and "commandName = '.'.join(commandName)" in gs))
+    # RichReplyMethods: a refusal with Raise (the default of errorNoCapability) RAISES, whatever the message text
+    en = find_func(tree, 'errorNoCapability', cls='RichReplyMethods')
+    es = ast.unparse(en)
+    facts.append(('nocap-raise-default', "if 'Raise' not in kwargs:\n        kwargs['Raise'] = True" in es))
+    facts.append(('nocap-raises-without-text', "if s:\n        return self._error(s, **kwargs)\n    elif kwargs['Raise']:\n        raise Error()" in es))
+    er = find_func(tree, '_error', cls='RichReplyMethods')
+    facts.append(('error-raise-unconditional', ast.unparse(er).replace(' ', '').startswith(
+        'def_error(self,s,Raise=False,**kwargs):\nifRaise:\nraiseError(s)\nelse:')))
+    # Config: every write goes through _setValue (checkCanSetValue first), once per listed channel
+    ct = parse('plugins/Config/plugin.py')
+    sv = ast.unparse(find_func(ct, '_setValue', cls='Config'))
+    facts.append(('config-setvalue-checks', 'checkCanSetValue(irc, msg, group)' in sv and sv.find('checkCanSetValue') < sv.find('group.set(value)')))
+    chs = find_func(ct, 'channel', cls='Config')
+    loops = [n for n in ast.walk(chs) if isinstance(n, ast.For) and ast.unparse(n.iter) == 'channels']
+    ok_loop = bool(loops) and 'self._setValue(irc, msg, group.get(channel), value)' in ast.unparse(loops[0]) \
+        and "self._setValue(irc, msg, group.get(':' + network.network).get(channel), value)" in ast.unparse(loops[0]) \
+        and '.set(value)' not in ast.unparse(chs)
+    facts.append(('config-channel-checks-each', ok_loop))
+    cfgsrc = ast.unparse(ct)
+    facts.append(('config-set-only-in-setvalue', cfgsrc.count('.set(') == 1 and cfgsrc.count('.setValue(') == 0))
     # Owner.doPrivmsg: ignore test precedes tokenising / dispatch
     ot = parse('plugins/Owner/plugin.py')
     d = find_func(ot, 'doPrivmsg', cls='Owner')
@@ -369,12 +399,12 @@ def gen_commands():
             plugins.append((cname, threaded, rows))
     if len(plugins) < 20:
         raise ExtractionError('only %d plugins found' % len(plugins))
-    cc, gate, proxy, getm, defmut = [], [], [], [], []
+    cc, gate, proxy, getm, defmut, nocap = [], [], [], [], [], []
     for rel in _py_files():
         tree = parse(rel)
         v = _Sites(rel)
         v.visit(tree)
-        cc += v.callCommand; gate += v.gate; proxy += v.proxy; getm += v.getMethod; defmut += v.defmut
+        cc += v.callCommand; gate += v.gate; proxy += v.proxy; getm += v.getMethod; defmut += v.defmut; nocap += v.nocap
     facts = _gate_shape()
 
     def row(plugin, path, wrapped, spec):
@@ -407,6 +437,9 @@ def gen_commands():
             '/-- code that mutates the default capability set `conf.supybot.capabilities()` in place or assigns it\n'
             '(anything else goes through the registry `set`, i.e. `DefaultCapabilities.setValue`) -/\n'
             'def defaultCapsMutators : List String := %s\n\n'
+            '/-- every call site of `errorNoCapability` with how `Raise` is passed (default = True): a refusal is a\n'
+            '`raise`, so nothing after the call runs -/\n'
+            'def noCapabilitySites : List (String × String) := %s\n\n'
             '/-- shape facts of the gate code (name, holds) -/\n'
             'def gateShape : List (String × Bool) := %s\n\nend Gen\n'
             % (n, len(plugins), ',\n'.join(rows_txt),
@@ -417,5 +450,6 @@ def gen_commands():
                llist(lstring(x) for x in sorted(getm)),
                llist('(%s, %s, %d)' % (lstring(w), lstring(m), k) for w, m, k in sorted(proxy)),
                llist(lstring(x) for x in sorted(defmut)),
+               llist('(%s, %s)' % (lstring(w), lstring(m)) for w, m in sorted(nocap)),
                llist('(%s, %s)' % (lstring(k), 'true' if v else 'false') for k, v in facts)))
     write_if_changed('Commands.lean', body, 'plugins/*/plugin.py, plugins/__init__.py, src/callbacks.py, src/commands.py')
